@@ -5,7 +5,7 @@ YAML document order, the std::map order and the model's association-list order c
 """
 import random
 
-GEN_VERSION = 4
+GEN_VERSION = 5
 
 # ---------------------------------------------------------------- codec
 def hx(s):
@@ -168,7 +168,7 @@ def follow(tree, path):
     return t
 
 
-KEYS = ["a", "b", "c", "k", "m", "list", "n1", "zz"]
+KEYS = ["a", "b", "c", "k", "m", "list", "n1", "zz", "k1", "list2"]      # k / k1 and list / list2: prefixes as text, siblings as paths
 WORDS = ["x", "y", "1", "42", "foo bar", "q, r", "Zed", "w_1.5"]
 IDX = ["@0", "@1", "@2", "@last", "@next", "@before 0", "@before 1", "@after 0", "@after last", "@before last",
        "@5", "@after 1"]
